@@ -93,9 +93,13 @@ MANIFEST = dict(
                 "chain) are C04's model and, here, the stale-session oracle; stale state for tproxy and pf (anchor-call "
                 "history) and pf with a loopback source are correspondence + oracle only; there is no Lean-side argv "
                 "parser (the oracle parses the real argv in Python). nft/tproxy/pf ignore user/group (proved: "
-                "C03_owner_ignored_by_nft_tproxy_pf; the client refuses the options for them, C15). Known finding: "
-                "tproxy renders DNS rules with /32 for IPv6 name servers too; recorded, not repaired, because the "
-                "repository's own test pins /32; the model follows the code as it is."),
+                "C03_owner_ignored_by_nft_tproxy_pf; the client refuses the options for them, C15). Known findings: "
+                "(1) tproxy renders DNS rules with /32 for IPv6 name servers too; recorded, not repaired, because the "
+                "repository's own test pins /32; the model follows the code as it is. (2) nat after a killed session "
+                "with a DIFFERENT owner restriction on the same port: the old owner's mangle MARK rule survives the new "
+                "session's restore_firewall, so the old owner's traffic is diverted too (C03_nat_stale_owner_rule_false; "
+                "C03_nat_stale_state_partial carries the excluded case as a hypothesis); recorded, not repaired: "
+                "restore_firewall cannot know the old owner."),
     technique="Lean 4 proof (sorted first/last-match lemma, key order = spec order, chain-walk induction, command-list congruence) + differential correspondence + per-cell oracle on real rules",
 )
 DRIVER_TARGETS = ['SshuttleModel.Code.FwRules', 'SshuttleModel.Env.PacketWalk', 'SshuttleModel.Spec.MostSpecific']
